@@ -73,7 +73,11 @@ class Ctx:
         del evalr.ALL_TRACES[:]
         # per-run caches (a pool worker analyses many variants of the tree one after the other)
         terms._KEY.clear()
+        terms.budget_baseline()
         evalr._LOCALS.clear()
+        evalr.Evaluator._closure_envs.clear()
+        evalr.Evaluator._lambdas.clear()
+        evalr.Evaluator._nt_fields.clear()
         self._sites = set()
         self.notes = []
         self.anchor_errors = []
